@@ -34,6 +34,25 @@ def post_gen(plan, w, model):
     g.next_blob = 700000
     dg = doomed.DoomedGen(g)
     r = w.rng('c13.n')
+    if (model.rr and model.cfg['level'] < 4 and not model.rr_moved and model.rr_moved_name is None and r.random() < 0.12):
+        # the one refusal whose residue would show as an illegal identifier in the image: a refused name for the relocation
+        # directory, then the first relocation
+        bad = dg.bad_relocated_name()
+        if bad is not None and bad['cause'].endswith('bad-identifier'):
+            plan['ops'].append(bad)
+            chain = []
+            base = '/'
+            for i in range(8):
+                nm = 'RL%d' % i
+                if model.get('iso', M.join(base, nm)) is not None:
+                    chain = None
+                    break
+                chain.append({'op': 'add_dir', 'iso': M.join(base, nm), 'rr': 'rl%d' % i, 'dt': 0.0})
+                base = M.join(base, nm)
+            if chain:
+                plan['ops'].extend(chain)
+                plan['ops'].append({'op': 'restart', 'dt': 1.0})
+            return
     # exactly one doomed call per run, as the last step: a refused call that leaves something behind (C14's
     # business) must not colour the verdict on the next one
     if r.random() < 0.7:
@@ -64,7 +83,7 @@ def post_gen(plan, w, model):
 
 PROFILE = H.Profile('c13', nops=(3, 20), post_gen=post_gen,
                     weights={'re_add': 12, 'rm_file': 12, 'rm_dir': 8, 'rm_link': 8, 'add_fp': 26, 'add_dir': 18, 'add_link': 8, 'dup_pvd': 0,
-                             'add_isohybrid': 0, 'add_eltorito': 1, 'restart': 5})
+                             'add_isohybrid': 0, 'add_eltorito': 1, 'restart': 5, 'chain_dirs': 2.5})
 
 
 def check_names(ctx, data):
